@@ -92,6 +92,8 @@ def run (c : Case) : CaseOut := Id.run do
       reaped := true
       obs := obs ++ [[]]
     | ["flush"] =>
+      if implObs.contains ["barrier-timeout"] then spec := "fail:row-accounting-never-balanced(rows-lost-or-duplicated)"
+      if implObs.contains ["sentinel-lost"] then spec := "fail:result-after-all-rows-never-delivered"
       if mode == "sql" then
         let mut ls : List (List String) := []
         for b in pending do
@@ -99,7 +101,7 @@ def run (c : Case) : CaseOut := Id.run do
           delivered := delivered + 1
         obs := obs ++ [ls]
         match implObs.mapM parseD with
-        | none => spec := "fail:unreadable-result"
+        | none => if spec == "ok" then spec := "fail:unreadable-result"
         | some ds =>
           -- a delivery must be one result row with count = |ids| = N, first/last = ends of ids
           if !(ds.all fun d => d.2.2.1 == n && d.2.1.length == n &&
@@ -110,7 +112,7 @@ def run (c : Case) : CaseOut := Id.run do
       else
         obs := obs ++ [pending.map fun b => "e" :: b.map fun r => toString r.2]
         match implObs.mapM parseE with
-        | none => spec := "fail:unreadable-result"
+        | none => if spec == "ok" then spec := "fail:unreadable-result(row-without-id)"
         | some bs => implBatches := implBatches ++ bs
       pending := []
     | _ => obs := obs ++ [[["bad-op"]]]
